@@ -10,10 +10,13 @@ def _c01_case(c):
     return {"raw": c[:2000]}
 
 
+import copyvm as _copyvm
+
 CONFIG = {
+    "post_model": _copyvm.vm_sample("GC01"),
     "properties_file": "Properties/C01.v",
-    "proof_files": ["Base/Prelude.v", "Proofs/CopySpec.v"],
-    "model_files": ["Generated/GC01.v", "Model/CopySpec.v", "Model/CopyTop.v"],
+    "proof_files": ["Base/Prelude.v", "Proofs/CopySpec.v", "Proofs/CopyAcct.v", "Proofs/CopyOpt.v"],
+    "model_files": ["Generated/GC01.v", "Model/CopySpec.v", "Model/CopyTop.v", "Model/CopyOpt.v"],
     "extract": "XC01.v",
     "ml_main": "c01_main.ml",
     "harness_test": True,
@@ -22,16 +25,18 @@ CONFIG = {
     "timeout_quick": 600,
     "timeout_thorough": 3000,
     "assumptions": [
+        "optional callbacks: which of PreCopy/PostCopy/OnCopySkipped/OnMounted/MountFrom (and FindSuccessors, MapRoot) are nil is chosen per run, including all nil = default options; a recorded trace then has no events for nil callbacks and is elaborated by Model/CopyOpt.step_opt (the invocation points of nil callbacks are inserted, an event of a nil callback is rejected); the *_any_callbacks theorems hold for every such choice",
+        "ExtendedCopyGraph / ExtendedCopy: the roots above the node (generator's predecessor relation; findRoots itself is C03's) are the model's c_root :: c_xroots, dispatched together and sharing tracker, proxy and limiter; the final Tag of ExtendedCopy is checked by the oracle only",
         "content.Successors (encoding/json decoding of the five manifest kinds) returns the generator's edge list: a parameter `g_succ` of the theorems; checked on every run by trace acceptance (only dispatched successors may be probed) and by dag.SelfTest",
         "standing hypothesis (explicit in the model): during the call the destination is written only by the call itself and never deletes; the source is immutable",
         "a destination accepts a push only for bytes matching the descriptor and the source serves the bytes its descriptor names (C05); byte identity is evaluated by the oracle on the real stores, not in the model",
         "mt_consistent (hypothesis of C01_closure, needed for digest-keyed destinations): two descriptors with the same digest have the same non-foreign successors up to digest; C01_closure_refuted_without_mt_consistency is the F12 witness",
-        "MapRoot / WithTargetPlatform is an opaque function in the model (prologue); platform.SelectManifest itself is checked by the oracle only (expected manifest = first index entry whose platform matches)",
+        "MapRoot is an opaque function in the model (prologue); WithTargetPlatform on a manifest list is modelled (CopyTop.select_manifest / plat_match = platform.SelectManifest / Match with strings abstracted to numbers, C01_platform_selection) and compared with the implementation on every platform case; platform selection on a single image manifest (platform read from the config blob) is not generated",
         "registry.Mounter destinations are modelled (MountFrom -> Mount per candidate -> mounted | skipped | fallback upload) and exercised through an in-harness Mounter wrapper (what remote.Repository implements), except a ReferencePusher root falling back inside Mount; status.Tracker single ownership, semaphore.Weighted and errgroup are modelled by their visible effect (per-node phase, active-task bound), not verified",
         "goroutine scheduling: theorems quantify over all interleavings of visible events accepted by the transition system; internal races are exercised (free-running goroutines with PRNG latencies/yields; controlled release orders under testing/synctest), not enumerated",
     ],
     "level_text": "Coq theorems over every trace accepted by the copyGraph transition system (all graphs, all link-closed initial destinations, all K >= 1, all interleavings): successful return => every reachable node present and final destination = copy_result; Copy => destination reference resolves to the returned root (Tagger, ReferencePusher and Mounter destinations; root copied, already present or mounted -- the latter since the fix f0a2d59, the pre-fix model is refuted by a witness); F12 witness proved. Tied to copy.go by trace acceptance + final-state equality on generated runs and an independent oracle (existence, byte identity, tag).",
-    "level_note": "pairings exercised: memory / OCI layout / reopened OCI layout / file store / remote.Repository (over an in-process fake registry behind remote.Client, with real FetchReference, PushReference and cross-repository Mount) as source and as destination; in addition in-harness ReferenceFetcher/ReferencePusher/Mounter wrappers around the local stores; schedules: free-running goroutines with PRNG latencies/yields, plus controlled schedules under testing/synctest (every instrumented operation parks, a PRNG releases one parked operation at each quiescent point; several release orders per graph); MapRoot/platform selection opaque in the model; byte identity by oracle only",
+    "level_note": "pairings exercised: memory / OCI layout / reopened OCI layout / file store / remote.Repository (over an in-process fake registry behind remote.Client, with real FetchReference, PushReference and cross-repository Mount) as source and as destination; in addition in-harness ReferenceFetcher/ReferencePusher/Mounter wrappers around the local stores; schedules: free-running goroutines with PRNG latencies/yields, plus controlled schedules under testing/synctest (every instrumented operation parks, a PRNG releases one parked operation at each quiescent point; several release orders per graph); MapRoot opaque in the model, platform selection on manifest lists modelled; byte identity by oracle only",
     "technique": "machine-checked proof in Coq (invariants over all accepted traces of a per-node-phase transition system) + constants regenerated from copy.go + trace-acceptance correspondence + independent oracle",
     "explanation": "every recorded event trace of Copy/CopyGraph must be a run of Model/CopySpec.v and the final destination must equal copy_result; the oracle checks existence + bytes of every reachable node and the tag with the generator's ground truth",
 }
